@@ -5,6 +5,7 @@ import (
 
 	"verif/harness/ref/errors"
 	"verif/harness/ref/notations/jschema/internal/schema"
+	"verif/harness/ref/notations/jschema/internal/schema/constraint"
 )
 
 // CheckRecursion checks that given schema doesn't have invalid recursions.
@@ -122,7 +123,12 @@ func (c *recursionChecker) check(node schema.Node, types map[string]schema.Type)
 
 	// We should check all fields in the object 'cause some of them can be required.
 	case *schema.ObjectNode:
-		for _, n := range node.Children() {
+		for i, n := range node.Children() {
+			// A key is required or not by the list the compiler has made, which
+			// takes the "keys are optional by default" option into account.
+			if !isRequiredKey(node, node.Key(i).Key) {
+				continue
+			}
 			if err := c.check(n, types); err != nil {
 				return err
 			}
@@ -191,4 +197,17 @@ func (c *recursionChecker) leave(typeName string) {
 
 func (c *recursionChecker) createError() error {
 	return errors.Format(errors.ErrInfinityRecursionDetected, strings.Join(c.path, " -> "))
+}
+
+func isRequiredKey(node *schema.ObjectNode, key string) bool {
+	c, ok := node.Constraint(constraint.RequiredKeysConstraintType).(*constraint.RequiredKeys)
+	if !ok {
+		return false
+	}
+	for _, k := range c.Keys() {
+		if k == key {
+			return true
+		}
+	}
+	return false
 }
